@@ -5,20 +5,136 @@ from vf.fp import core_fp, EVT_DTOR, SRC_DTOR
 BASE = ["Lib/core/main.c", "Lib/structs/queue.c", "Lib/structs/stack.c", "Lib/mem/mem.c", "Lib/utils/mem.c"]
 PERIOD_SRC = ["Lib/core/mod.c"] + BASE
 
-META = {}
+ACC_SRC = ["Lib/core/ctx.c", "Lib/core/evts.c", "Lib/core/ps.c", "Lib/core/mod.c", "Lib/core/src.c", "Lib/core/main.c",
+           "Lib/core/fs/fs_noop.c", "Lib/structs/queue.c", "Lib/structs/stack.c", "Lib/structs/map.c",
+           "Lib/structs/list.c", "Lib/mem/mem.c", "Lib/utils/mem.c"]
+RECUR = {"m_mem_unref": 3, EVT_DTOR: 2}
+ENTRY = {0: "batchsize", 1: "become", 2: "regtmr", 3: "deregtmr", 4: "pauseresume", 5: "batchtimeout"}
+ACC_FP = core_fp(mem_dtors=[EVT_DTOR, SRC_DTOR], on_evt=["on_evt", "h1"])
+
+# (entry point, pattern): C = rate-limited call, T = refill tick, B = tick of another internal timer
+S = "?"
+ACCOUNT = {
+    "quick": [(0, S * 6), (1, S * 6), (4, S * 6), (2, S * 4), (3, S * 4), (5, S * 4)],
+    "thorough": [(0, S * 10), (1, S * 10), (4, S * 10), (2, S * 6), (3, S * 6), (5, S * 6),
+                 (0, "CCTCC"), (0, "TCBCC"), (1, "CTCC"), (2, "CCTC"), (3, "CTCC"), (4, "CTCC")],
+}
+E2E = {"quick": [(3, 0, "CCTC")],
+       "thorough": [(r, e, "CCTCTC") for r in (1, 3, 7, 1000000000) for e in (0, 1)]}
+
+RECONF_SRC = ["Lib/core/mod.c", "Lib/core/src.c"] + BASE + ["Lib/structs/map.c", "Lib/structs/list.c"]
+RECONF_FP = core_fp(mem_dtors=[SRC_DTOR])
+PRE = {0: "fresh", 1: "configured", 2: "restarted", 3: "twocalls"}
+RECONF = {
+    "quick": [(0, {}), (1, {}), (2, {}), (3, {"VF_R1": 3, "VF_B1": 2})],
+    "thorough": [(0, {}), (1, {}), (2, {})] + [(3, {"VF_R1": r, "VF_B1": b}) for r in (1, 3, 7, 1000000000)
+                                               for b in (1, 2)],
+}
+
+META = {
+    "functions": ["mod.c: m_mod_set_tokenbucket, reset_module, m_mod_pause, m_mod_resume, stop, start, m_mod_is",
+                  "mod.h: M_MOD_CONSUME_TOKEN (through every entry point below)",
+                  "ctx.c: push_evt (refill branch, internal-timer branches)",
+                  "evts.c: m_mod_set_batch_size, m_mod_become, m_mod_set_batch_timeout, new_evt, evt_dtor",
+                  "src.c: m_mod_src_register_tmr, m_mod_src_deregister_tmr, register_mod_src, deregister_mod_src, "
+                  "create_src, src_priv_dtor", "mem.c: m_mem_new/ref/unref", "stack.c, queue.c: as reached"],
+    "stubs": ["m_ctx() returns the harness' context", "fetch_ms = arbitrary clock value",
+              "libmodule_logger = empty variadic",
+              "period jobs: m_mod_src_register_tmr / m_mod_src_deregister_tmr = recording stubs (src.c not linked)",
+              "account / reconf jobs: m_bst_insert / m_bst_remove on the timer tree = ideal set keyed by the period "
+              "(the tree is C11's subject, its keying C09's); poll_set_new_evt = counts calls, returns 0",
+              "account.pauseresume: manage_srcs and tell_system_pubsub_msg = count calls, return 0",
+              "reconf.restarted: the source-dropping half of stop() (manage_srcs(RM, stop)) = emptying the registry "
+              "model; the bucket half is the real reset_module()",
+              "a refill tick = new_evt(refill source) + push_evt, as recv_events does for a timer event; the kernel "
+              "timer itself (timerfd with it_interval = it_value = period) is outside"],
+    "bounds": "period: one call, every rate in uint32_t, every burst, any earlier configuration; accounting: from any "
+              "bucket state (burst any uint64_t, tokens <= burst) every sequence of K steps over {rate-limited call, "
+              "refill tick, tick of another internal timer} chosen by the solver, K = 6 quick / 10 thorough (4 / 6 for "
+              "the entry points that allocate or free a source), one entry point per job; end-to-end: constants "
+              "rate in {1,3,7,10^9}, burst 3, fixed pattern; reconfiguration: one call (rate 0..10^9, burst any) from "
+              "{never configured, any earlier configuration with any tokens left incl. 0, stopped and restarted, a "
+              "real first call with constants}, one user timer with any period",
+    "outside": "wall-clock behaviour of timerfd; entry points other than the six exercised (all use the same "
+               "M_MOD_CONSUME_TOKEN macro before their first effect - by reading); more than one user timer; the "
+               "real timer tree and its comparator (C09, C11); allocation failure; the uint16_t copy mod->tb.rate "
+               "(written, never read: the truncation of rates above 65535 has no effect; --conversion-check is off "
+               "for the jobs that execute that assignment)",
+    "assumptions": ["burst >= 1 in the constructed 'configured' pre-state (a configuration with burst 0 cannot "
+                    "register its refill timer: the registration itself is refused)"],
+}
+
+
+def account_job(ent, pat, rate):
+    d = {"VF_ENTRY": ent, "VF_PAT": '"%s"' % pat, "VF_PUSH_EVT": fl("push_evt", "ctx.c")}
+    rm = ["m_ctx"]
+    if ent == 4:
+        d["VF_MANAGE_SRCS"] = fl("manage_srcs", "mod.c")
+        rm += [fl("manage_srcs", "mod.c"), "tell_system_pubsub_msg"]
+    pname = "sym%d" % len(pat) if set(pat) == {"?"} else pat
+    name = "C18.account.%s.%s" % (ENTRY[ent], pname)
+    sym = ["burst (uint64_t, full width)", "tokens at the start (any value <= burst)", "clock values"]
+    if rate is not None:
+        d["VF_RATE"] = rate
+        d["VF_BURST"] = 3
+        name = "C18.e2e.rate%d.%s.%s" % (rate, ENTRY[ent], pname)
+        sym = ["burst (uint64_t, >= 1)", "tokens used since the configuration"]
+    if ent == 0:
+        sym.append("requested batch size (size_t)")
+    return Job(name, "l1/c18_account.c", sources=ACC_SRC, extra_harness=["common/vf_defs.c"], remove=rm, defines=d,
+               fsa=1024, layer="l1", backend="cadical", unwind=max(len(pat), 8) + 2, unwindset=RECUR, fp=ACC_FP,
+               noflags=["--conversion-check"] if rate is not None else [],   # (uint16_t)rate into the unused tb.rate
+               native={"sources": [s for s in ACC_SRC if s != "Lib/core/ctx.c"]}, symbolic=sym,
+               bounds="pattern %s from any bucket state" % pat, timeout=600, mem_gb=12)
 
 
 def jobs(tier):
     js = []
-    js.append(Job("C18.period", "l1/c18_period.c", sources=PERIOD_SRC, extra_harness=["common/vf_defs.c"],
-                  remove=["m_ctx"], fsa=1024, layer="l1", backend="cvc5-int", unwind=4,
-                  fp=core_fp(mem_dtors=[], container_dtors=()),
-                  native={"sources": PERIOD_SRC},
+    pcommon = dict(sources=PERIOD_SRC, extra_harness=["common/vf_defs.c"], remove=["m_ctx"], fsa=1024, layer="l1",
+                   unwind=4, fp=core_fp(mem_dtors=[], container_dtors=()), native={"sources": PERIOD_SRC},
+                   noflags=["--conversion-check"], mem_gb=8)
+    js.append(Job("C18.period.arith", "l1/c18_period.c", defines={"VF_ARITH": None}, backend="cvc5-int",
+                  symbolic=["rate (uint32_t, full width)", "burst (uint64_t, full width)",
+                            "earlier configuration present or not, its period / burst / tokens", "module state"],
+                  bounds="one call, every rate", timeout=300, **pcommon))
+    js.append(Job("C18.period.struct", "l1/c18_period.c", backend="cadical",
                   symbolic=["rate (uint32_t, full width)", "burst (uint64_t, full width)",
                             "earlier configuration present or not, its period / burst / tokens",
                             "module state (IDLE/RUNNING/PAUSED/STOPPED)", "result of the timer registration"],
-                  bounds="one call from any earlier bucket configuration", timeout=300, mem_gb=8))
+                  bounds="one call from any earlier bucket configuration", timeout=300, **pcommon))
+    for ent, pat in ACCOUNT[tier]:
+        js.append(account_job(ent, pat, None))
+    for rate, ent, pat in E2E[tier]:
+        js.append(account_job(ent, pat, rate))
+    for pre, extra in RECONF[tier]:
+        d = {"VF_PRE": pre, "VF_RESET_MODULE": fl("reset_module", "mod.c")}
+        d.update(extra)
+        nm = "C18.reconf.%s" % PRE[pre] + ("." if extra else "") + "".join("%s%s" % (k[3].lower(), v) for k, v in sorted(extra.items(), reverse=True))
+        sym = ["rate (uint32_t, 0..10^9)", "burst (uint64_t, full width)", "period of the user's timer (uint64_t)"]
+        if pre in (1, 2):
+            sym += ["earlier configuration: period (1..10^9), burst, tokens <= burst (0 included)"]
+        if pre == 3:
+            sym += ["tokens left of the first configuration"]
+        js.append(Job(nm, "l1/c18_reconf.c", sources=RECONF_SRC, extra_harness=["common/vf_defs.c"], remove=["m_ctx"],
+                      defines=d, fsa=1024, layer="l1", backend="cadical", unwind=7, unwindset={"m_mem_unref": 3},
+                      fp=RECONF_FP, noflags=["--conversion-check"], kf=["C18_tmrkey_shared"],
+                      native={"sources": [s for s in RECONF_SRC if s != "Lib/core/mod.c"]}, symbolic=sym,
+                      bounds="one reconfiguration from pre-state '%s'" % PRE[pre], timeout=600, mem_gb=12))
     return js
 
 
-MANIFEST = {"text": "", "note": ""}
+MANIFEST = {
+    "text": "Bounded model checking of the real token-bucket code in three units: (a) m_mod_set_tokenbucket for every "
+            "rate in uint32_t and every burst: period_ns * rate >= 10^9 (decided by cvc5 on the integer encoding), "
+            "timer identity, rate 0, rejection above 10^9; (b) M_MOD_CONSUME_TOKEN through six entry points and the "
+            "refill branch of push_evt from ANY bucket state (tokens <= burst assumed and re-established, so histories "
+            "of any length are covered) over every K-step sequence of calls and ticks: successes <= burst + ticks, "
+            "refused calls return -EAGAIN without effect, one token per refill tick up to burst, a throttled module "
+            "acts again after a tick; (c) every reconfiguration (incl. with no tokens left, after a restart, with a "
+            "user timer of any period registered) leaves exactly one refill timer keyed as the bucket remembers it, "
+            "rate 0 leaves none, the user's timer is untouched",
+    "note": "rate * t is linked to ticks through (a) and (c): one refill timer whose period keeps it at or below "
+            "`rate` ticks per second; the kernel timer, the real timer tree (ideal keyed set instead) and the source-"
+            "dropping half of stop() are stubs listed in the evidence; sequences longer than K are covered by the "
+            "inductive formulation only as far as the listed entry points go",
+}
